@@ -336,8 +336,12 @@ impl Bundle {
     /// Serialize bundle as CBOR encoded byte buffer.
     pub fn to_cbor(&mut self) -> ByteBuffer {
         self.calculate_crc();
-        let mut bytebuf = serde_cbor::to_vec(&self).expect("Error serializing bundle as cbor.");
-        bytebuf[0] = 0x9f; // TODO: fix hack, indefinite-length array encoding
+        // indefinite-length array: start byte, every block, break mark
+        let mut bytebuf = vec![0x9f];
+        bytebuf.append(&mut self.primary.to_cbor());
+        for c in &self.canonicals {
+            bytebuf.append(&mut c.to_cbor());
+        }
         bytebuf.push(0xff); // break mark
         bytebuf
     }
